@@ -132,7 +132,7 @@ def patch_modules():
     def recv(self, state=None, timeout=None):
         res = orig_recv(self, state, timeout)
 
-        if res is not None:
+        if res is not None and W().current is not None:      # (E2 drives the receiver without procs and records on its own)
             w = W()
             p = w.current
             data, st = res
